@@ -192,6 +192,10 @@ def run(prog, tier) -> Result:
                         f"validity {vk}, {'first' if prior is None else 'later'} update", up_body(vk, prior),
                         snap_of=lambda o: (o.state.scn.before, snapshot(o.state, o.state.scn.conv)),
                         min_accepting=0 if (prior == "year" and vk not in ("year", "text")) else 1)
+    for vk in ("year 0", "month 13"):
+        # a period that does not exist: rejected, and nothing is left behind
+        check_entry(prog, res, "R16.1", "MoneyConverter.update", f"validity {vk}, first update", up_body(vk, None),
+                    snap_of=lambda o: (o.state.scn.before, snapshot(o.state, o.state.scn.conv)), min_accepting=0)
 
     res.require("R16.1", 30)
     return res
